@@ -141,12 +141,13 @@ class MutableKernelSizes:
         :rtype: int
         """
         if kernel_size is not None:
-            if self.tuple_sizes:
-                assert isinstance(kernel_size, tuple), "Kernel size must be a tuple."
-            else:
-                assert isinstance(kernel_size, int), "Kernel size must be an integer."
-
-            new_kernel_size = kernel_size
+            # NOTE: The value returned by a previous call (an integer) is what gets
+            # passed on to the other networks of an agent, also for 3D kernels
+            new_kernel_size = (
+                int(kernel_size[-1])
+                if isinstance(kernel_size, (tuple, list))
+                else int(kernel_size)
+            )
         else:
             max_kernels = self.calc_max_kernel_sizes(
                 channel_size, stride_size, input_shape
